@@ -198,6 +198,16 @@ fn judge(existing: &str, before: &CopyView, after: &CopyView, s: &Supplied, live
     if a == b {
         return None;
     }
+    // a key's stored version never decreases unless the copy's watermark rose
+    if a.0 <= b.0 {
+        for (k, old) in &b.2 {
+            if let Some(new) = a.2.get(k) {
+                if new.0 < old.0 {
+                    return Some((format!("stored version of key {k:?} went from {} to {} although the watermark did not rise ({} -> {})", old.0, new.0, b.0, a.0), "key-version-decreased".into()));
+                }
+            }
+        }
+    }
     // replaced: key set := supplied, newer version of a key present in both wins
     *applied = true;
     let mut want: BTreeMap<String, (u64, u8, String)> = BTreeMap::new();
@@ -554,7 +564,7 @@ pub fn run_for(property: &'static str, tier: Tier, started: Instant) -> Vec<Part
     }
     viols.sort_by_key(|v| v.replay.to_string().len());
     for v in viols {
-        if property != "C18" && !(v.sig == "frontier-lowered" || v.sig.starts_with("panic")) {
+        if property != "C18" && !(v.sig == "frontier-lowered" || v.sig == "key-version-decreased" || v.sig.starts_with("panic")) {
             continue;
         }
         part.violation(property, v.what, v.sig, v.replay);
